@@ -932,6 +932,11 @@ class Analysis:
             r = self._higher_order(frame, t, ev, path, bb)
             if r is not None:
                 return r
+        elif override is not None and getattr(self.policy, "fork_std", False) and "indirect" not in f:
+            # a std combinator passed as a function value (`.and_then(Option::as_ref)`)
+            r = self._fork_std(frame, t, ev, path, bb)
+            if r is not None:
+                return r
         # inline crate-local callee?
         target = self._local_body(f)
         if target is not None and frame.depth < self.eng.max_depth and self.policy.inline(f, target, frame.depth):
@@ -1022,6 +1027,11 @@ class Analysis:
         while isinstance(v, tuple) and v[0] == "ref" and n < 4:
             v = frame.read_lv(v[2])
             n += 1
+        # a function item (or capture-less closure) held in a local that a loop borrows mutably (`mut f: F`, `f(&mut x)`) is
+        # widened at the loop head like any other local, but a value of such a type cannot change
+        if isinstance(v, tuple) and v[0] == "loopvar" and len(v) > 3 and isinstance(v[3], tuple) and \
+                (v[3][0] == "fn" or (v[3][0] == "closure" and not v[3][3])):
+            v = v[3]
         return v
 
     def _fn_callee(self, fnv):
@@ -1204,7 +1214,7 @@ class Analysis:
                 "is_some": [(some, ("val", TRUE)), (none, ("val", FALSE))],
                 "is_none": [(some, ("val", FALSE)), (none, ("val", TRUE))],
                 "copied": [(some, ("val", _some(("deref", pay)))), (none, ("val", NONE))],
-                "cloned": [(some, ("val", _some(("deref", pay)))), (none, ("val", NONE))],
+                "cloned": [(some, ("val", _some(("call", "<T as std::clone::Clone>::clone", (pay,), None)))), (none, ("val", NONE))],
             }.get(n)
         m = self.RES_RE.match(d) if alts is None else None
         if m and a and not (isinstance(a[0], tuple) and a[0][0] == "agg"):
@@ -1463,6 +1473,61 @@ def std_model(an, frame, ev, path):
             return ("agg", "std::option::Option", 1, "Some", (("agg", "std::cmp::Ordering", 1, "Equal", ()),))
     if re.match(r"^(core|std)::num::<impl (usize|u8|u32|u64)>::(saturating_sub|saturating_add|wrapping_sub|wrapping_add)$", d) and is_int(a[1]) and a[1][1] == 0:
         return a[0]
+    m = re.match(r"^(?:core|std)::num::<impl (u8|u16|u32|u64|u128|usize)>::(\w+)$", d)
+    if m and a and all(is_int(x) for x in a):
+        # integer methods on known values (constant folding of the codec tables must not depend on how a bit trick is spelled)
+        ty, fn = m.group(1), m.group(2)
+        w = MASKS[ty]
+        M = (1 << w) - 1
+        x = a[0][1] & M
+        y = a[1][1] if len(a) > 1 else None
+        r = None
+        if fn == "reverse_bits":
+            r = int(format(x, "0%db" % w)[::-1], 2)
+        elif fn == "swap_bytes":
+            r = int.from_bytes(x.to_bytes(w // 8, "little"), "big")
+        elif fn == "count_ones":
+            return I(bin(x).count("1"), "u32")
+        elif fn == "count_zeros":
+            return I(w - bin(x).count("1"), "u32")
+        elif fn == "leading_zeros":
+            return I(w - x.bit_length(), "u32")
+        elif fn == "trailing_zeros":
+            return I(w if x == 0 else (x & -x).bit_length() - 1, "u32")
+        elif fn == "rotate_left" and y is not None:
+            k = y % w
+            r = ((x << k) | (x >> (w - k))) & M if k else x
+        elif fn == "rotate_right" and y is not None:
+            k = y % w
+            r = ((x >> k) | (x << (w - k))) & M if k else x
+        elif fn == "wrapping_add" and y is not None:
+            r = (x + y) & M
+        elif fn == "wrapping_sub" and y is not None:
+            r = (x - y) & M
+        elif fn == "wrapping_mul" and y is not None:
+            r = (x * y) & M
+        elif fn == "wrapping_shl" and y is not None:
+            r = (x << (y % w)) & M
+        elif fn == "wrapping_shr" and y is not None:
+            r = x >> (y % w)
+        elif fn == "saturating_sub" and y is not None:
+            r = max(0, x - y)
+        elif fn == "saturating_add" and y is not None:
+            r = min(M, x + y)
+        elif fn == "min" and y is not None:
+            r = min(x, y)
+        elif fn == "max" and y is not None:
+            r = max(x, y)
+        elif fn == "abs_diff" and y is not None:
+            r = abs(x - y)
+        elif fn == "is_power_of_two":
+            return I(1 if x and not (x & (x - 1)) else 0, "bool")
+        elif fn == "pow" and y is not None and (x ** y) <= M:
+            r = x ** y
+        if r is not None:
+            return I(r, ty)
+    if tr == "std::cmp::Ord" and d.split("::")[-1] in ("min", "max") and len(a) == 2 and is_int(a[0]) and is_int(a[1]):
+        return a[0] if (a[0][1] <= a[1][1]) == (d.endswith("min")) else a[1]
     if d in ("std::ops::RangeInclusive::<Idx>::start", "std::ops::RangeInclusive::<Idx>::end"):
         which = d.split("::")[-1]
         return ("ref", False, ("field", _unref(frame, a[0]), 0 if which == "start" else 1, which, "usize"))
@@ -1610,7 +1675,10 @@ def _option_rows(an, frame, ev, path, d, a):
     if m == "unwrap_or":
         return x if some else a[1]
     if m in ("copied", "cloned") and some:
-        return _some(_unref(frame, x) if isinstance(x, tuple) and x[0] == "ref" else x)
+        v = _unref(frame, x) if isinstance(x, tuple) and x[0] == "ref" else x
+        if m == "cloned" and not is_int(v):
+            v = ("call", "<T as std::clone::Clone>::clone", (x,), None)
+        return _some(v)
     if m in ("copied", "cloned") and not some:
         return NONE
     if m == "map":
